@@ -1,7 +1,7 @@
 #!/usr/bin/env python3
 """Apply a seeded change to /repo, run one check, undo.  usage: seedtest.py <patch.diff> <PROP> [tier]"""
 import subprocess, sys, os, json
-patch, prop = sys.argv[1], sys.argv[2]
+patch, prop = os.path.abspath(sys.argv[1]), sys.argv[2]
 tier = sys.argv[3] if len(sys.argv) > 3 else "quick"
 st = subprocess.run(["git", "-C", "/repo", "status", "--porcelain", "--untracked-files=no"], stdout=subprocess.PIPE).stdout.decode().strip()
 if st:
